@@ -181,6 +181,8 @@ pub fn stress_shapes(ctx: &mut Ctx, reps: u64) {
         ctx.count("schedule-extended-after-last-transmission");
         run_plain(ctx, &gen_staggered_service(&mut rng));
         ctx.count("staggered-service-histories");
+        run_plain(ctx, &gen_stale_instants(&mut rng));
+        ctx.count("stale-instant-histories");
         ctx.count_n("stress-histories", 10);
     }
     for _ in 0..(reps / 16).max(2) {
@@ -236,6 +238,42 @@ pub fn gen_staggered_service(rng: &mut crate::prng::Rng) -> History {
         ops.push(Op::Poll(PollAt::AtWait));
     }
     History { tcp: false, remote0: None, remote_addr: None, ops }
+}
+
+/// (11) stale instants: a call is handed an instant earlier than one handed to an earlier call (for
+///      another transaction, or for a message that leaves no transaction); every schedule counts from
+///      the instants of its own transmissions
+pub fn gen_stale_instants(rng: &mut crate::prng::Rng) -> History {
+    let back = *rng.pick(&[1u64, 500, 10_000, 30_000, 39_499, 39_500, 120_000]);
+    let mut ops = vec![];
+    match rng.below(3) {
+        0 => {
+            // an indication far in the "future", then a request now
+            ops.push(Op::Advance(back));
+            ops.push(Op::Send { kind: MsgKind::Indication, tid: 5, dest: 1, seal: Sealing::None, payload: 1 });
+            ops.push(Op::Rewind(back));
+            ops.push(req(0, 0, Sealing::None, 2));
+        }
+        1 => {
+            // A sent and answered late, then B started with an earlier instant
+            ops.push(req(0, 0, Sealing::None, 2));
+            ops.push(Op::Advance(back));
+            ops.push(Op::Response { tid: 0, from: 0, error: false, seal: RespSeal::Unsigned, fp: false });
+            ops.push(Op::Rewind(back));
+            ops.push(req(1, 2, Sealing::None, 3));
+        }
+        _ => {
+            // A polled late (its schedule moves on), B started earlier, both polled on
+            ops.push(req(0, 0, Sealing::None, 2));
+            ops.push(Op::Poll(PollAt::After(back)));
+            ops.push(Op::Rewind(back / 2 + 1));
+            ops.push(req(1, 2, Sealing::None, 3));
+        }
+    }
+    for _ in 0..(6 + rng.usize(10)) {
+        ops.push(Op::Poll(*rng.pick(&[PollAt::AtWait, PollAt::AtWait, PollAt::Half, PollAt::After(1)])));
+    }
+    History { tcp: rng.chance(1, 4), remote0: None, remote_addr: None, ops }
 }
 
 /// (10) many concurrent transactions: 20..=1500 requests started at one instant (ids beyond the core
@@ -567,6 +605,7 @@ pub fn run_c20(ctx: &mut Ctx) {
             0 if i % 64 == 0 => gen_many_transactions(&mut rng),
             0 => gen_many_peers(&mut rng),
             1 | 2 => gen_extended_schedule(&mut rng),
+            3 | 4 => gen_stale_instants(&mut rng),
             _ => gen_staggered_service(&mut rng),
         };
         check_c20_history(ctx, &h, 1 + rng.below(1_000_000), i % 32 == 0);
@@ -611,6 +650,8 @@ pub fn check_c20_history(ctx: &mut Ctx, h: &History, shift: u64, threads: bool) 
         ("second-instance", base_cfg.clone()),
         ("with-unrelated-agents", RunCfg { noise_agents: true, ..base_cfg.clone() }),
         ("shifted-with-unrelated-agents", RunCfg { shift_ms: shift / 2 + 1, noise_agents: true, ..base_cfg.clone() }),
+        // whether anybody listens to the library's tracing events is ambient state too
+        ("with-tracing-subscriber", RunCfg { with_subscriber: true, ..base_cfg.clone() }),
     ];
     for (name, cfg) in variants {
         let r = run_history(ctx, h, &cfg);
